@@ -11,7 +11,8 @@ ID = "C03"
 LEVEL = "exploration"
 RULE = (
     "2-9 targets over a pool of 3-10 files placed in nested/sibling directories (several files share a basename); "
-    "each target has its own working directory (root, sub, sub/deep, other) and every path occurrence gets a random "
+    "each target has its own working directory (root, sub, sub/deep, other; given at construction or assigned afterwards), "
+    "file names include an NFC/NFD pair that are two distinct files, and every path occurrence gets a random "
     "spelling (relative, './x', 'd/../x', 'a//b', absolute, absolute with '.', '..', '//' segments, pathlib.Path) and "
     "container shape; each case is built in 3 definition orders. Observed: Graph.from_targets "
     "dependencies/dependents/provides/unresolved/endpoints (lib lane) and `gwf info` JSON through the real CLI (cli "
@@ -74,7 +75,7 @@ def gen_case(rng, idx, tier):
     lane = "cli" if idx % 10 == 0 else "lib"
     nfiles = rng.randint(3, 10)
     dirs = ["", "sub", "sub/deep", "other", "data"]
-    bases = ["x.txt", "y.txt", "z.dat", "w.dat"]
+    bases = ["x.txt", "y.txt", "z.dat", "w.dat", "caf\u00e9.txt", "cafe\u0301.txt"]  # the last two are distinct files
     files = []
     while len(files) < nfiles:
         f = (rng.choice(dirs) + "/" + rng.choice(bases)).lstrip("/")
@@ -99,7 +100,7 @@ def gen_case(rng, idx, tier):
         cands = [f for f in files if f not in outs and (f not in producer or producer[f] < i)]
         cands = [f for f in cands if f in producer or f not in avail or True]
         ins = rng.sample(cands, min(len(cands), rng.randint(0, 3)))
-        t = {"name": "t%d" % i, "wd_rel": wd, "ins": [], "outs": []}
+        t = {"name": "t%d" % i, "wd_rel": wd, "ins": [], "outs": [], "reassign": rng.random() < 0.25}
         for f in ins:
             k = rng.choices(SPELL_KINDS, weights)[0]
             s, isp = spell(rng, k, wd, f)
@@ -134,6 +135,7 @@ def concrete(case, root):
                 "name": t["name"],
                 "wd": wd,
                 "wd_rel": t["wd_rel"],
+                "reassign": t.get("reassign", False),
                 "ins": [x["s"].replace("@ROOT@", root) for x in t["ins"]],
                 "outs": [x["s"].replace("@ROOT@", root) for x in t["outs"]],
                 "ins_l": [gen.leaf_expr(x["s"].replace("@ROOT@", root), x["path"]) for x in t["ins"]],
@@ -245,7 +247,11 @@ def fmt(d):
 def run_cli(case, proj, variant, deps, inv, res):
     tl = []
     for t in variant:
-        if t["wd_rel"]:
+        if t["wd_rel"] and t.get("reassign"):
+            # created with the workflow's directory, then moved: the graph must use the directory the
+            # target has when the graph is built
+            tl.append(dict(t, route="raw", raw="_t = gwf.target(%r, inputs=%s, outputs=%s)\n_t.working_dir = %r" % (t["name"], t["ins_expr"], t["outs_expr"], t["wd"])))
+        elif t["wd_rel"]:
             tl.append(dict(t, route="template", wd_arg=t["wd"]))
         else:
             tl.append(dict(t, route="target"))
